@@ -246,6 +246,11 @@ func NewQueueBlockingLimiterFromConfig(
 			ordering: OrderingFIFO,
 		},
 	}
+	// honour the configured ordering (the default applied above is LIFO)
+	if config.Ordering == OrderingLIFO || config.Ordering == OrderingFIFO {
+		l.ordering = config.Ordering
+		l.backlog.ordering = config.Ordering
+	}
 
 	config.MetricRegistry.RegisterGauge(
 		core.MetricQueueLimit, core.NewIntMetricSupplierWrapper(func() int {
